@@ -113,21 +113,3 @@ contract(PO + '.remove_person', types={'name_id': NID},
                                            'valmap(self.cache._db)[k] == old(valmap(self.cache._db))[k]), "Val")')],
          raises={'KeyError': 'not has_key(self.cache._db, code_of(name_id))'},
          modifies=['dict(self.cache._db)'], clauses_from={'C19': ['C19-subject-gone', 'C19-others-untouched']})
-contract(PO + '.add_information_about_person', types={'session_info': 'Dict(Str, Any)'}, returns=NID,
-         requires=[_DB_OK,
-                   'has_key(session_info, "name_id") and typed(session_info["name_id"], "%s")' % NID,
-                   'has_key(session_info, "issuer") and is_str(session_info["issuer"])',
-                   'has_key(session_info, "not_on_or_after") and (is_int(session_info["not_on_or_after"]) or is_str(session_info["not_on_or_after"]) '
-                   'or session_info["not_on_or_after"] is None)',
-                   'forall(lambda k: implies(has_key(self.cache._db, k), self.cache._db[k] != session_info and self.cache._db[k] != self.cache._db), "Val")',
-                   'session_info != self.cache._db'],
-         lets={'N0': 'session_info["name_id"]', 'I0': 'str_of(session_info["issuer"])', 'E0': 'session_info["not_on_or_after"]'},
-         ensures=[('C19-stored-for-the-subject-of-the-session', 'result == N0 and HAS_ENTRY(self.cache, as_type(N0, "%s"), I0)' % NID),
-                  ('C19-stored-with-the-session-expiry', 'ENTRY_OF(self.cache, as_type(N0, "%s"), I0)[0] == E0' % NID),
-                  ('C19-other-subjects-untouched',
-                   'forall(lambda k: implies(k != code_of(N0), has_key(self.cache._db, k) == old(has_key(self.cache._db, k)) and '
-                   'valmap(self.cache._db)[k] == old(valmap(self.cache._db))[k]), "Val")'),
-                  ('caller-session-info-untouched', 'keyset(session_info) == old(keyset(session_info)) and valmap(session_info) == old(valmap(session_info))')],
-         raises={'Exception': 'True'},
-         modifies=['dict(self.cache._db)', 'dict(self.cache._db[code_of(session_info["name_id"])])'],
-         clauses_from={'C19': ['C19-stored-for-the-subject-of-the-session', 'C19-stored-with-the-session-expiry', 'C19-other-subjects-untouched']})
